@@ -3,7 +3,6 @@ package main
 import (
 	"fmt"
 	"go/constant"
-	"go/token"
 	"go/types"
 	"sort"
 
@@ -112,6 +111,8 @@ func ruleSibCoerce(c *Ctx, r *R) {
 			}
 			if guardNames[callee.Name()] || (boundSet[callee] && len(call.Call.Args) == 1 && call.Call.Args[0] == ssa.Value(fn.Params[0])) {
 				guard = ins
+			} else if helperEstablishesReceiver(callee, call, fn.Params[0], guardNames, 0) {
+				guard = ins // a helper that itself starts with the receiver check on the same call record
 			}
 			break // only the first call counts
 		}
@@ -502,11 +503,7 @@ func dominatedByNaNExit(fn *ssa.Function, cell *ssa.Alloc, use ssa.Instruction) 
 		if !ok {
 			continue
 		}
-		cond := iff.Cond
-		neg := false
-		if u, ok := cond.(*ssa.UnOp); ok && u.Op == token.NOT {
-			cond, neg = u.X, true
-		}
+		cond, neg := normBool(iff.Cond)
 		a := loadAddr(cond)
 		fa, ok := a.(*ssa.FieldAddr)
 		if !ok || fa.X != ssa.Value(cell) || !isFieldAddr(fa, "dateObject", "isNaN") {
@@ -519,6 +516,37 @@ func dominatedByNaNExit(fn *ssa.Function, cell *ssa.Alloc, use ssa.Instruction) 
 		if b.Dominates(use.Block()) && !reaches(nanSide, use.Block(), map[*ssa.BasicBlock]bool{b: true}) {
 			return true
 		}
+	}
+	return false
+}
+
+// helperEstablishesReceiver: callee receives the whole FunctionCall record (or its This) and its own first call is a receiver guard.
+func helperEstablishesReceiver(callee *ssa.Function, call *ssa.Call, callParam *ssa.Parameter, guardNames map[string]bool, depth int) bool {
+	if callee == nil || callee.Blocks == nil || depth > 2 {
+		return false
+	}
+	passes := false
+	for _, a := range call.Call.Args {
+		if a == ssa.Value(callParam) {
+			passes = true
+		}
+		if f, ok := a.(*ssa.Field); ok && f.X == ssa.Value(callParam) {
+			passes = true
+		}
+	}
+	if !passes {
+		return false
+	}
+	for _, ins := range callee.Blocks[0].Instrs {
+		c2, ok := ins.(*ssa.Call)
+		if !ok {
+			continue
+		}
+		cl := c2.Call.StaticCallee()
+		if cl == nil {
+			return false
+		}
+		return guardNames[cl.Name()]
 	}
 	return false
 }
